@@ -12,6 +12,7 @@ import CircuitModel.Conc.TC
 import CircuitModel.Conc.Mgr
 import CircuitModel.Conc.Call
 import CircuitModel.Conc.Run
+import CircuitModel.Conc.Exec
 import CircuitModel.Basic
 namespace CM
 open Conc
@@ -638,6 +639,82 @@ def suiteTrRunGauge (kvs : List (String × String)) (lines : List (String × Str
   let jobs : List Conc.Run.Job := ((kvGet kvs "acts").getD "").toList.map fun ch =>
     if ch == 's' then .call {} else if ch == 'p' then .call { panics := true } else .call { failed := true }
   (TrRun.conform "in-run" (Conc.Run.init false false false (kvInt kvs "mc" 10) jobs) (lines.map (·.1))).map fun r => r ++ "\t-"
+
+/-! the `gauge` traces against the WHOLE-EXECUTE model Conc/Exec: after the run side (as in `tr-run-gauge`) Execute's decision
+    and the fallback — the Disabled read, `concurrentFallbacks.Add(1)`, the limit read, the fallback function, the deferred
+    `Add(-1)` on every exit incl. the fallback's panic -/
+namespace TrExec
+open Conc.Exec
+
+def fbGaugeVar := "c.concurrentFallbacks"
+def fbLimitVar := "c.threadSafeConfig.Fallback.MaxConcurrentRequests"
+def fbDisabledVar := "c.threadSafeConfig.Fallback.Disabled"
+
+def tracked (body : String) : Bool :=
+  TrRun.tracked body || body == "in-fallback" || (body.splitOn " ").any fun t => t == fbGaugeVar || t == fbLimitVar || t == fbDisabledVar
+
+def expected (s : Shared) : Local → Option String
+  | .op .. => none
+  | .call l _ pc =>
+    match pc with
+    | .running => (match l.pc with | .done _ => none | _ => TrRun.expected "in-run" s.r l)
+    | .decide _ | .fbDeliverReject | .fbDeliver _ => none
+    | .loadDisabled => some s!"load {fbDisabledVar} -> {s.fbDisabled}"
+    | .fbAdd => some s!"add {fbGaugeVar} 1 -> {s.fbGauge + 1}"
+    | .fbLoadLimit _ => some s!"load {fbLimitVar} -> {s.fbLimit}"
+    | .fbInvoke => some "in-fallback"
+    | .fbDec _ => some s!"add {fbGaugeVar} -1 -> {s.fbGauge - 1}"
+    | .done _ => none
+
+def isDone : Local → Bool
+  | .call _ _ (.done _) => true
+  | _ => false
+
+def advanceSilent (c : Config Shared Local) (i : Nat) : Nat → Config Shared Local
+  | 0 => c
+  | fuel + 1 =>
+    match c.locals[i]? with
+    | some l => if !isDone l && (expected c.shared l).isNone then
+        (match step i c.shared l with
+         | some (s', l') => advanceSilent { shared := s', locals := c.locals.set i l' } i fuel
+         | none => c)
+      else c
+    | none => c
+
+def conform (c : Config Shared Local) : List String → List String
+  | [] => []
+  | line :: rest =>
+    match line.splitOn " " with
+    | tidS :: toks =>
+      let body := " ".intercalate toks
+      if !tracked body then "skip" :: conform c rest else
+      (match tidS.toNat? with
+       | none => "bad-line" :: conform c rest
+       | some tid =>
+         let c := advanceSilent c tid 10
+         match c.locals[tid]? with
+         | none => s!"MISMATCH no such thread {tid}" :: conform c rest
+         | some l =>
+           match expected c.shared l with
+           | none => s!"MISMATCH whole-Execute model expects nothing more from thread {tid} but the code did: {body}" :: conform c rest
+           | some e =>
+             if e != body then s!"MISMATCH thread {tid}: whole-Execute model expects [{e}] code did [{body}]" :: conform c rest
+             else match step tid c.shared l with
+               | some (s', l') => "ok" :: conform { shared := s', locals := c.locals.set tid l' } rest
+               | none => s!"MISMATCH thread {tid}: [{body}] is not enabled in the whole-Execute model" :: conform c rest)
+    | _ => "bad-line" :: conform c rest
+
+end TrExec
+
+/-- `gauge` scenario, header k= mc= fbmc= acts=<s|f|p|F|P per caller> pr=(0|1).  With pr=1 a COLLECTOR panics when told about
+    a rejection — user code the model has no step for: those traces are judged by `tr-run-gauge` (run side) only -/
+def suiteTrExecGauge (kvs : List (String × String)) (lines : List (String × String)) : List String :=
+  if kvNat kvs "pr" 0 == 1 then lines.map fun _ => "skip\t-" else
+  let jobs : List Conc.Exec.Job := ((kvGet kvs "acts").getD "").toList.map fun ch =>
+    if ch == 's' then .exec {} {} else if ch == 'p' then .exec { panics := true } {}
+    else if ch == 'f' then .exec { failed := true } {} else if ch == 'F' then .exec { failed := true } { fails := true }
+    else .exec { failed := true } { panics := true }
+  (TrExec.conform (Conc.Exec.init false false false (kvInt kvs "mc" 10) (kvInt kvs "fbmc" 10) false jobs) (lines.map (·.1))).map fun r => r ++ "\t-"
 
 /-- header of the `shed` scenario: init=(0|1) ops=<O|F|S per thread>; the closer admits nobody and never closes,
     the opener says open after every failure -/
